@@ -323,6 +323,8 @@ def value_stream(ctx):
         members = sorted(rng.sample(range(world), rng.randrange(2, world + 1)))
         cap = rng.choice([4, 8, 16, 24, 40, 64, 100, 10**6])
         nt = rng.randrange(1, 9)
+        if trial < 4:
+            cap, nt = 10**6, rng.randrange(3, 9)       # directed: one bucket for everything, repeated tensor objects
         one = rng.choice([0, 0, 1, 2]) if rng.random() < 0.7 else None      # one dtype for all requests (model + oracle) or mixed (oracle)
         reqs = [(one if one is not None else rng.choice([0, 0, 0, 2]), rng.choice([0, 1, 1, 2, 3, 5, 9])) for _ in range(nt)]   # (dtype tag, numel)
         # the SAME tensor object submitted again (e.g. sum and mean of one tensor, a tied factor): a request of its own.
@@ -331,7 +333,7 @@ def value_stream(ctx):
         # of the same object contributes would depend on timing in both.
         src = list(range(nt))
         for tid in range(1, nt):
-            if cap == 10**6 and rng.random() < 0.35:
+            if cap == 10**6 and (rng.random() < 0.35 or (trial < 4 and tid == 1)):
                 reqs[tid] = reqs[tid - 1]
                 src[tid] = src[tid - 1]
 
